@@ -20,8 +20,12 @@ USER_F = {"cube+1": lambda x: x**3 + 1, "cos": np.cos}
 # ---- operators with controlled spectrum --------------------------------------------------------------------------
 def herm_leaf(rng, n, dt, lo=0.5, hi=3.0, declare="PSD", zero=False):
     eigs = lin(lo, hi, n)
+    if n > 1 and rng.random() < 0.3:  # repeated eigenvalues: eigenspaces of dimension > 1 that are not aligned with the axes
+        eigs = [eigs[int(j)] for j in np.sort(rng.integers(0, max(1, n // 2), size=n))]
     if zero:
         eigs[0] = 0.0
+    if declare == "PSD" and rng.random() < 0.25:
+        declare = "SelfAdjoint"  # true as well; Auto then takes the general (Eig) path instead of Eigh
     leaf = {"k": S.pick(rng, ["Dense", "Dense", "Generic"]), "shape": [n, n], "dt": dt, "seed": S.seed(rng), "gen": "herm",
             "eigs": eigs}
     return {"k": "Annot", "name": declare, "arg": leaf} if declare else leaf
@@ -90,6 +94,15 @@ def gen_operator(rng, dt, hermitian, fn, depth=1):
     raise ValueError(form)
 
 
+def redeclare_psd(node):
+    if not isinstance(node, dict):
+        return node
+    out = {k: ([redeclare_psd(c) for c in v] if k == "args" else (redeclare_psd(v) if k == "arg" else v)) for k, v in node.items()}
+    if out.get("k") == "Annot" and out.get("name") == "SelfAdjoint":
+        out["name"] = "PSD"
+    return out
+
+
 def gen(tier, rng, shard, nshards):
     for i in range(SIZES[tier]):
         dt = S.pick(rng, ["f8", "f8", "c16", "c16", "f4"])
@@ -110,6 +123,10 @@ def gen(tier, rng, shard, nshards):
                 "hermitian": hermitian}
         if fn == "pow":
             case["a"] = S.pick(rng, POWERS)
+            if case["a"] == -1:
+                # power -1 is delegated to inv(): Lanczos -> CG and Eigh -> Cholesky, which refuse operators that are not
+                # *declared* PSD.  The matrices here are positive definite: declare them so (admissible algorithm object).
+                case["spec"] = redeclare_psd(node)
         if fn == "apply_unary":
             case["f"] = S.pick(rng, list(USER_F))
         yield case
